@@ -15,7 +15,7 @@ import (
 )
 
 func init() {
-	register("C19", "Decides the representability clauses of parameter handling: (R19.1) every non-constant integer conversion in the module that narrows (or changes sign at equal width) is examined; one whose operand originates from a user parameter (a TracerouteParams field, an HTTP query value, a CLI flag, a parsed port) must, on every CFG path to it, be dominated by comparisons on the UN-narrowed value that confine it to the target type and whose failing edge does not reach the conversion; other narrowings must be discharged by a mask/shift, by being the re-narrowing of a widened value, by a small interval domain, or by a reviewed table entry; (R19.2) no + - * evaluated in an 8/16-bit type reaches a make size, an index, a slice bound or a loop bound unless the interval domain shows it cannot wrap; (R19.3) the protocol switch ends in an error-returning default (the TCP-method switch is C20 R20.1), the default port is substituted exactly when Port == 0, and the address/port handed to every protocol constructor come from parseTarget's result; (R19.4) the TTL bounds travel from the parameters to the engines' loop bounds through conversions only and e2e probes set MinTTL = MaxTTL. That accepted extreme values work end to end needs execution and is not decided; DNS resolution is outside. (R19.5) The HTTP layer hands the library exactly the integers the request states: every integer field of the parameters literal is a query decoder's result (converted or scaled by a constant at most), a decoder returns the parsed number itself or, only when the key is absent or not a number, its default, and the handler passes the literal unmodified to RunTraceroute behind err == nil.", runC19)
+	register("C19", "Decides the representability clauses of parameter handling: (R19.1) every non-constant integer conversion in the module that narrows (or changes sign at equal width) is examined; one whose operand originates from a user parameter (a TracerouteParams field, an HTTP query value, a CLI flag, a parsed port) must, on every CFG path to it, be dominated by comparisons on the UN-narrowed value that confine it to the target type and whose failing edge does not reach the conversion; other narrowings must be discharged by a mask/shift, by being the re-narrowing of a widened value, by a small interval domain, or by a reviewed table entry; (R19.2) no + - * evaluated in an 8/16-bit type reaches a make size, an index, a slice bound or a loop bound unless the interval domain shows it cannot wrap; (R19.3) the protocol switch ends in an error-returning default (the TCP-method switch is C20 R20.1), the default port is substituted exactly when Port == 0, and the address/port handed to every protocol constructor come from parseTarget's result; (R19.4) the TTL bounds travel from the parameters to the engines' loop bounds through conversions only and e2e probes set MinTTL = MaxTTL. That accepted extreme values work end to end needs execution and is not decided; DNS resolution is outside. (R19.5) The HTTP layer hands the library exactly the integers the request states: every integer field of the parameters literal is a query decoder's result (converted or scaled by a constant at most), a decoder returns the parsed number itself or, only when the key is absent or not a number, its default, and the handler passes the literal unmodified to RunTraceroute behind err == nil. (R19.6) On the plumbing path (front end and per-protocol packages) every named parameter is used and every constructor stores each of its parameters in the value it returns or hands it to a call. (R19.5b) The boolean query decoder returns strconv.ParseBool's verdict or the default.", runC19)
 	darwinRules["C19"] = runC19
 }
 
@@ -360,10 +360,73 @@ func checkConstructorsForward(c *Ctx) {
 	R.Floor("R19.6:constructor-parameters", n, 10)
 }
 
+// checkTTLIndexedTables is R19.2b: a slice field that a driver's SendProbe tree indexes by (a widening of) its ttl parameter has
+// length int(MaxTTL)+1 by construction – the only length that makes every accepted TTL a valid index. A table sized by the probe
+// count (MaxTTL-MinTTL+1) is too short whenever MinTTL > 1, and SendProbe panics.
+func checkTTLIndexedTables(c *Ctx) {
+	R := c.R
+	if len(lenBoundedFields) == 0 {
+		discoverLenBoundedFields(c)
+	}
+	n := 0
+	for _, d := range Drivers(c.P) {
+		var ttl *ssa.Parameter
+		for _, pa := range d.SendProbe.Params {
+			if bt, ok := pa.Type().Underlying().(*types.Basic); ok && bt.Kind() == types.Uint8 {
+				ttl = pa
+			}
+		}
+		if ttl == nil {
+			continue
+		}
+		for _, g := range ModReach(c.P, d.SendProbe) {
+			if core.ShortPkg(core.FuncPkg(g)) != d.Pkg {
+				continue
+			}
+			for _, b := range g.Blocks {
+				for _, in := range b.Instrs {
+					ia, ok := in.(*ssa.IndexAddr)
+					if !ok {
+						continue
+					}
+					ld, ok := ia.X.(*ssa.UnOp)
+					if !ok {
+						continue
+					}
+					fa, ok := ld.X.(*ssa.FieldAddr)
+					if !ok {
+						continue
+					}
+					if _, isSlice := ld.Type().Underlying().(*types.Slice); !isSlice {
+						continue
+					}
+					// index derives from the ttl parameter (of SendProbe, or of the helper it was handed to)
+					idx := stripWiden(ia.Index)
+					pa, isParam := c.P.DefX(idx).(*ssa.Parameter)
+					if p2, ok := idx.(*ssa.Parameter); ok {
+						pa, isParam = p2, true
+					}
+					if !isParam {
+						continue
+					}
+					if bt, ok := pa.Type().Underlying().(*types.Basic); !ok || bt.Kind() != types.Uint8 {
+						continue
+					}
+					n++
+					key := strings.TrimPrefix(fieldKeyOf(fa), core.ModulePath+"/")
+					R.Check(lenBoundedFields[key], "R19.2", fmt.Sprintf("%s#ttl-indexed[%s]", core.FuncName(g), key), ia.Pos(), core.FuncName(g), "the table indexed by the TTL is made with length int(MaxTTL)+1", "the table "+key+" is indexed by the TTL but is not made with length int(MaxTTL)+1: an accepted TTL can lie past its end (e.g. MinTTL > 1 with a table sized by the probe count) and SendProbe panics")
+				}
+			}
+		}
+	}
+	R.Analysed["R19.2b_ttl_indexed_tables"] = n
+}
+
 func runC19(c *Ctx) {
 	R := c.R
 	checkNoParameterDropped(c)
 	checkConstructorsForward(c)
+	checkTTLIndexedTables(c)
 	nconv, ncand := 0, 0
 	for _, f := range c.P.ModFuncs {
 		fn := core.FuncName(f)
